@@ -23,7 +23,7 @@ VRT_SCENARIO(uc, "producer/consumer hand-off on one Future/Promise pair") {
   vrt::NameField(&yaclib::detail::MakeDrop(), "drop");
   Payload::ResetCounters();
   g_exec.Reset();
-  ctx.EnableWeakFail(1);  // the hand-off must not depend on a weak CAS succeeding
+  ctx.EnableWeakFail(static_cast<int>(ctx.ParamInt("weak", 1)));  // the hand-off must not depend on a weak CAS succeeding
   const std::string prod = ctx.Param("prod", "val");
   const std::string cons = ctx.Param("cons", "then_inline");
 
